@@ -403,6 +403,8 @@ def rule_f(ctx, ix):
         # ... nor overwritten once eval() has started: a store after the eval (or in a finally around it) runs when a nested
         # evaluation returns, in the middle of the outer eval().  Putting back a value saved before the eval is the exception.
         evals = [x for x in ast.walk(f.node) if isinstance(x, ast.Call) and isinstance(x.func, ast.Name) and x.func.id == 'eval']
+        if not evals:
+            raise AnalysisError('%s: the eval() call is no longer recognised' % f.construct)
         if evals:
             first = min(e.lineno for e in evals)
             saved_ = {st.targets[0].id for st in walk_no_nested(f.node) if isinstance(st, ast.Assign) and isinstance(st.targets[0], ast.Name)
